@@ -90,6 +90,12 @@ def check_vd_fields(dec, cfg, counters):
     import calendar
     vio = []
     ex = cfg.extra
+    if 'vol_expire_date' not in ex:
+        # no expiry given: every descriptor records "not specified" (sixteen '0' digits, offset 0)
+        for vol in dec.volumes:
+            st = bytes(vol.vd.raw[847:864])
+            if st != b'0' * 16 + b'\x00':
+                vio.append({'key': 'vd:field:vol_expire_date:unspecified', 'detail': '%s descriptor at sector %d: no expiry date was given, recorded %r' % (vol.kind, vol.vd.sector, st)})
     if not ex:
         return vio
     counters['vd_field_images'] = counters.get('vd_field_images', 0) + 1
